@@ -8,10 +8,11 @@ Is(e) == l <= Len(Trace) /\ Trace[l].e = e
 Say(kind, t, what) == PrintT(<<kind, ToJson([t |-> t, l |-> l, what |-> what])>>)
 Adv == l' = l + 1
 
-Begin == Is("begin") /\ m' = M0(Want(Ev.eps, Ev.sapp, Ev.sep)) /\ Adv
+Cut(ev) == {<<ev.cut[i][1], ev.cut[i][2]>> : i \in DOMAIN ev.cut}
+Begin == Is("begin") /\ m' = M0G(Want(Ev.eps, Ev.sapp, Ev.sep, Cut(Ev)), Ev.groups) /\ Adv
 \* an action drawn on its own lifeline ("spaced" arrow) is not a call
 Step == /\ l <= Len(Trace)
-        /\ Ev.e \in {"declare", "call", "return", "activate", "deactivate", "open", "else", "close", "sep", "note"}
+        /\ Ev.e \in {"declare", "call", "return", "activate", "deactivate", "open", "else", "close", "sep", "note", "boxmember"}
         /\ m' = (IF Ev.e = "call" /\ Ev.spaced THEN m ELSE Do(m, Ev)) /\ Adv
 EvEnd == /\ Is("end") /\ (AtEnd(m) # {} => Say("VERDICT", Ev.t, AtEnd(m)))
          /\ UNCHANGED m /\ Adv
